@@ -10,7 +10,7 @@ from hypothesis import strategies as st
 from vf import gwl
 from vf.core import Obs
 from vf.lab import lab_spec
-from vf.prog import World, execute, expect_sequential, expect_transfer, flat_pairs, op_direct, op_distribute, op_evo, op_transfer, resolve, trough_indices, vs_bad, vs_ok
+from vf.prog import ops_list, World, execute, expect_sequential, expect_transfer, flat_pairs, op_direct, op_distribute, op_evo, op_transfer, resolve, trough_indices, vs_bad, vs_ok
 
 PID = "C03"
 RULE = (
@@ -74,7 +74,7 @@ def _case(draw, stratum):
     hinted = st.tuples(op_transfer(vs, max_n=2), st.integers(0, 5)).map(lambda x: dict(x[0], hint=x[1]))
     to_empty = st.tuples(op_direct(vs, kinds=("dispense",), max_n=2), st.integers(0, 7)).map(lambda x: dict(x[0], to_empty=x[1]))
     normal = st.one_of(op_direct(vs, kinds=("aspirate", "dispense")), to_empty, op_transfer(vs), hinted, hinted, op_distribute(vs), op_evo(vs))
-    ops = draw(st.lists(normal, min_size=0, max_size=8))
+    ops = draw(ops_list(normal, 0, 8))
     fop, mode = stratum
     fail = dict(
         draw(
